@@ -17,7 +17,9 @@ Decided:
  S  schedule agreement for every dimension m = 1 .. 8192 (quick) / 65536 (thorough), both CPU paths: the table constructor and the transform
     invoke the same sequence of drivers (breadth-first 2/16-point, recursive) on the same sub-dimensions with the same
     twiddle-cursor offsets on entry and exit - the thresholds 16 / 2048 where the algorithm switches are thereby tied
-    together between producer, reference consumer and accelerated consumer.
+    together between producer, reference consumer and accelerated consumer. The trace describes how the code is organised;
+    where it differs (a recursion turned into a loop does that and changes no value) the clause is decided by clause L's
+    comparison run at the dimensions in question, never by the trace itself.
  U  no uninitialised table read: every twiddle operand is a value the constructor wrote (no output depends on initial
     table memory).
  I  round trip: ifft(fft(z)) has the matrix m*Id within the same tolerance.
@@ -336,6 +338,7 @@ def run(tier):
     ms = [1, 2, 4, 8, 16, 32] if tier == 'quick' else [1, 2, 4, 8, 16, 32, 64, 128]
     ncoef = 0
     nasm = 0
+    valres = {}     # (transform, m, cpu) -> None | error text, from the value clauses (matrix / sampled rows)
     for name, layout, inverse in (('reim_fft', 'reim', False), ('reim_ifft', 'reim', True), ('cplx_fft', 'cplx', False),
                                   ('cplx_ifft', 'cplx', True)):
         for cpu in ('generic', 'accel'):
@@ -354,6 +357,7 @@ def run(tier):
                     nasm += 1
                 else:
                     done.append(m)
+                    valres[(name, m, cpu)] = err
                 if err:
                     bad = bad or (m, err)
             subj = '%s [%s]' % (name, cpu)
@@ -384,6 +388,7 @@ def run(tier):
                     R.broke('%s m=%d [%s]: %s' % (name, m, cpu, broke))
                     continue
                 ncoef += n
+                valres[(name, m, cpu)] = err
                 if err:
                     bad = bad or (m, err)
             if bad:
@@ -455,6 +460,7 @@ def run(tier):
     for (ctor, entry) in (('new_reim_fft_precomp', 'reim_fft'), ('new_reim_ifft_precomp', 'reim_ifft'),
                           ('new_cplx_fft_precomp', 'cplx_fft'), ('new_cplx_ifft_precomp', 'cplx_ifft')):
         bad = None
+        susp = []      # (m, cpu, what differs): the traces differ - a different organisation of the code or a defect
         ref_use = {}
         for cpu in ('generic', 'accel'):
             for k in range(14 if tier == 'quick' else 17):
@@ -476,15 +482,51 @@ def run(tier):
                 pu = [(p, kd, ms, cur) for (p, kd, ms, cur, d) in use if kd != 'rec_16']
                 if pf != pu:
                     diff = next((i for i, (a, b) in enumerate(zip(pf, pu)) if a != b), min(len(pf), len(pu)))
-                    bad = bad or (m, cpu, 'table producer and transform disagree at step %d: producer %s, transform %s' % (
-                        diff, pf[diff] if diff < len(pf) else None, pu[diff] if diff < len(pu) else None))
+                    susp.append((m, cpu, 'table producer and transform disagree at step %d: producer %s, transform %s' % (
+                        diff, pf[diff] if diff < len(pf) else None, pu[diff] if diff < len(pu) else None)))
                 if cpu == 'generic':
                     ref_use[m] = use
                 elif m in ref_use and [x for x in ref_use[m] if x[1] != 'rec_16'] != [x for x in use if x[1] != 'rec_16']:
-                    bad = bad or (m, cpu, 'reference and accelerated transforms follow different driver schedules')
+                    susp.append((m, cpu, 'reference and accelerated transforms follow different driver schedules'))
+        decided_by_values = []
+        if susp and not bad:
+            # The trace is a description of how the code is organised, not of what it computes: a recursion turned into a
+            # loop changes it and changes no value. A difference is therefore decided by the values: outputs of the
+            # transform at the dimensions where the traces differ (smallest two and largest per path) against the DFT.
+            lay, inv = {n: (l, i) for (n, l, i) in fams}[entry]
+            want = []
+            for cpu in ('generic', 'accel'):
+                mm = sorted({m for (m, c, _) in susp if c == cpu and m <= (16384 if tier == 'quick' else 65536)})
+                want += [(m, cpu) for m in sorted(set(mm[:2] + mm[-1:]))]
+            todo = [(entry, lay, inv, m, cpu) for (m, cpu) in want if (entry, m, cpu) not in valres]
+            if todo:
+                with ProcessPoolExecutor(max_workers=min(8, len(todo))) as ex:
+                    for (jn, jl, ji, m, cpu), (err, n, broke) in zip(todo, ex.map(_sampled_job, todo)):
+                        if broke:
+                            R.broke('%s m=%d [%s]: %s' % (entry, m, cpu, broke))
+                        else:
+                            ncoef += n
+                            valres[(entry, m, cpu)] = err
+            for (m, cpu) in want:
+                if (entry, m, cpu) not in valres:
+                    continue
+                err = valres[(entry, m, cpu)]
+                if err:
+                    bad = bad or (m, cpu, '%s; outputs at this dimension: %s' % (
+                        next(w for (sm, sc, w) in susp if sm == m and sc == cpu), err))
+                else:
+                    decided_by_values.append('m=%d [%s]' % (m, cpu))
+            if not want:
+                R.ob('twiddle-producer-and-consumers-follow-the-same-schedule', entry, 'unknown',
+                     detail='m=%d [%s]: %s (dimension beyond the value clause)' % susp[0])
+                continue
         if bad:
             R.ob('twiddle-producer-and-consumers-follow-the-same-schedule', entry, 'refuted', detail='m=%d [%s]: %s' % bad,
                  key='%s:schedule' % entry, witness={'m': bad[0], 'cpu': bad[1]})
+        elif susp:
+            R.ob('twiddle-producer-and-consumers-follow-the-same-schedule', entry, 'holds',
+                 detail='driver traces of producer and consumer are organised differently (first: m=%d [%s]); decided by values: '
+                        'sampled outputs are the DFT at %s' % (susp[0][0], susp[0][1], ', '.join(decided_by_values)))
         else:
             R.ob('twiddle-producer-and-consumers-follow-the-same-schedule', entry, 'holds', detail='m = 1 .. %d' % (1 << (13 if tier == 'quick' else 16)))
     R.floor('(transform, m, cpu) schedules compared', nsched, 100)
